@@ -311,7 +311,9 @@ def generate(ctx):
         ctx.run("xmrb58_encode", [b"\xff" * n], "ones", trivial=(n == 0))
     for x in range(256):
         ctx.run("xmrb58_encode", [bytes([x])], "len1")
-    for _ in range(ctx.n(150, 3000)):
+    for _ in range(ctx.n(150, 2400)):
+        if not ctx.time_left():
+            break
         n = rng.choice([1, 2, 3, 7, 8, 9, 15, 16, 17, 65, 69, 73, 77, rng.randrange(100)])
         b = bytes(rng.choice([0, 0, 1, 2])) + rb(rng, n)
         ctx.run("xmrb58_encode", [b], "rand")
@@ -358,7 +360,9 @@ def generate(ctx):
         ctx.run("xmr_wallet", [1, (5).to_bytes(n, "little") if n else b"", b"", 0, 0, []], "spend-len")
         ctx.run("xmr_wallet", [2, rb(rng, n), b"", 0, 0, []], "bip44-len")
     # --- index grid on a few wallets (all ops incl. refusals), 3 networks
-    for _ in range(ctx.n(3, 40)):
+    for _ in range(ctx.n(3, 32)):
+        if not ctx.time_left():
+            break
         k = le32(rng.randrange(1, L))
         net = rng.randrange(3)
         grid = [(mi, ma) for mi in IDX + IDX_BAD[:2] for ma in IDX + IDX_BAD[:2]]
@@ -366,7 +370,9 @@ def generate(ctx):
             grid = rng.sample(grid, 12) + [(0, 0), (2**32 - 1, 2**32 - 1), (2**32, 0), (0, 2**32)]
         for mi, ma in grid:
             ctx.run("xmr_wallet", [1, k, b"", net, rng.choice([2, 5]), [mi, ma]], "index-grid")
-    for _ in range(ctx.n(25, 600)):
+    for _ in range(ctx.n(25, 480)):
+        if not ctx.time_left():
+            break
         c = rng.choice([0, 1, 2])
         x = le32(rng.randrange(1, L)) if c == 1 else rb(rng, rng.choice([16, 32, 32, 64, rng.randrange(65)]))
         net = rng.randrange(3)
@@ -376,7 +382,9 @@ def generate(ctx):
             ctx.run("xmr_wallet", [c, x, b"", net, op, args], "rand")
     # --- watch-only wallets
     tors = torsion_points()
-    for _ in range(ctx.n(8, 100)):
+    for _ in range(ctx.n(8, 80)):
+        if not ctx.time_left():
+            break
         k = rng.randrange(1, L)
         a, ps, pv = ref_keys_from_spend(k)
         net = rng.randrange(3)
@@ -398,7 +406,7 @@ def generate(ctx):
         ctx.run("xmr_wallet", [3, le32(7), t, 0, 5, [1, 1]], "watch-only-torsion")
         ctx.run("xmr_wallet", [3, le32(7), t, 0, 1, []], "watch-only-torsion")
     # --- address encoders / decoders
-    for _ in range(ctx.n(40, 800)):
+    for _ in range(ctx.n(40, 640)):
         if not ctx.time_left():
             break
         k = rng.randrange(1, L)
